@@ -309,6 +309,10 @@ Section Radau.
                         | ModifiedSolution => (f xph ycb, add_fev st 1, (xph, ycb) :: log)
                         | _ => (f0, st, log)
                         end in
+                      let scal := match fl with
+                                  | ModifiedSolution => map3 (fun a r yi => a + r * abs O yi) atolv rtolv ycb
+                                  | _ => scal
+                                  end in
                       if last then inr (mkR Success hnew st xph ycb log jl cbs)
                       else
                         let hnew := clamp (abs O hnew) hmin hmax * posneg in
